@@ -165,6 +165,16 @@ class CallGraph:
             for st in stmts:
                 excl[id(st)] = {k: set(v) for k, v in cur.items()}
                 if isinstance(st, ast.If):
+                    # `if not isinstance(x, T): <body>`: inside the body x is not a T; after an `else` that leaves, neither
+                    if isinstance(st.test, ast.UnaryOp) and isinstance(st.test.op, ast.Not) and isinstance_disjuncts(st.test.operand) and _only_isinstance(st.test.operand):
+                        c2 = {k: set(v) for k, v in cur.items()}
+                        for var, names in isinstance_disjuncts(st.test.operand):
+                            c2.setdefault(var, set()).update(names)
+                        visit(st.body, c2)
+                        visit(st.orelse, cur)
+                        if st.orelse and ends_abruptly(st.orelse):
+                            cur = c2
+                        continue
                     ds = isinstance_disjuncts(st.test)
                     pure = ds and _only_isinstance(st.test)
                     visit(st.body, cur)
